@@ -61,13 +61,18 @@ fn eff_page(size: i32) -> usize {
 
 impl<'a> Model<'a> {
     fn expected_list(&self, kind: u8, target: &str, since_idx: usize) -> Option<Vec<String>> {
+        self.expected_spans(kind, target, since_idx).map(|v| v.into_iter().map(|x| x.2).collect())
+    }
+
+    /// (create invoke idx, create return idx, name), sorted by return idx
+    fn expected_spans(&self, kind: u8, target: &str, since_idx: usize) -> Option<Vec<(usize, usize, String)>> {
         if self.last_mutation_idx >= since_idx {
             return None;
         }
         match kind {
             0 => {
                 let prefix = format!("{}/topics/", target);
-                let mut v: Vec<(usize, String)> = Vec::new();
+                let mut v: Vec<(usize, usize, String)> = Vec::new();
                 for (name, n) in self.tnames.iter() {
                     if !name.starts_with(&prefix) {
                         continue;
@@ -76,15 +81,15 @@ impl<'a> Model<'a> {
                         return None;
                     }
                     if let Some(i) = n.inst {
-                        v.push((self.topics[i].cr, name.clone()));
+                        v.push((self.topics[i].ci, self.topics[i].cr, name.clone()));
                     }
                 }
-                v.sort();
-                Some(v.into_iter().map(|x| x.1).collect())
+                v.sort_by_key(|x| x.1);
+                Some(v)
             }
             1 => {
                 let prefix = format!("{}/subscriptions/", target);
-                let mut v: Vec<(usize, String)> = Vec::new();
+                let mut v: Vec<(usize, usize, String)> = Vec::new();
                 for (name, n) in self.snames.iter() {
                     if !name.starts_with(&prefix) {
                         continue;
@@ -93,11 +98,11 @@ impl<'a> Model<'a> {
                         return None;
                     }
                     if let Some(i) = n.inst {
-                        v.push((self.subs[i].cr, name.clone()));
+                        v.push((self.subs[i].ci, self.subs[i].cr, name.clone()));
                     }
                 }
-                v.sort();
-                Some(v.into_iter().map(|x| x.1).collect())
+                v.sort_by_key(|x| x.1);
+                Some(v)
             }
             _ => {
                 let tn = self.tnames.get(target)?;
@@ -105,7 +110,7 @@ impl<'a> Model<'a> {
                     return None;
                 }
                 let ti = tn.inst?;
-                let mut v: Vec<(usize, String)> = Vec::new();
+                let mut v: Vec<(usize, usize, String)> = Vec::new();
                 for s in self.subs.iter() {
                     if s.topic_name != target {
                         continue;
@@ -122,7 +127,7 @@ impl<'a> Model<'a> {
                     }
                     match s.topic_inst {
                         None => return None,
-                        Some(t) if t == ti => v.push((s.cr, s.name.clone())),
+                        Some(t) if t == ti => v.push((s.ci, s.cr, s.name.clone())),
                         _ => {}
                     }
                 }
@@ -133,8 +138,8 @@ impl<'a> Model<'a> {
                         return None;
                     }
                 }
-                v.sort();
-                Some(v.into_iter().map(|x| x.1).collect())
+                v.sort_by_key(|x| x.1);
+                Some(v)
             }
         }
     }
@@ -236,8 +241,9 @@ impl<'a> Model<'a> {
                 }
             }
         }
-        if let Some(exp) = self.expected_list(w.kind, &w.target, w.first_invoke) {
-            if all != exp {
+        if let Some(spans) = self.expected_spans(w.kind, &w.target, w.first_invoke) {
+            let exp: Vec<String> = spans.iter().map(|x| x.2.clone()).collect();
+            if !same_order_modulo_overlap(&spans, &all) {
                 self.v(
                     "walk_mismatch",
                     if w.kind == 2 { &["C13", "C11"] } else { &["C13"] },
